@@ -206,23 +206,25 @@ C18_QLOG = "qlog plumbing: context.quic_logger_frames is a list whenever self._q
 C18_CIDLEN = "configuration.connection_id_length >= 0 (QuicConnection.__init__ already called os.urandom with it; nothing writes it afterwards)"
 C18_FRESH = "allocation freshness for QuicConnectionId (engine/pyvc/interp.py _assume_unreferenced): an object under construction is referenced from no field / list of the entry heap or of the current heap"
 C18_COMP = "engine/pyvc/comp.py: `[x for x in L if P(x)]` is the unique list related to L by the index maps src/dst (facts F1-F4), P evaluated in strict pure mode"
+PB_ = "quic/packet_builder.py::QuicPacketBuilder."
 PROPS["C18"] = dict(
     functions=[
         CONN + "_handle_new_connection_id_frame", CONN + "_consume_peer_cid", CONN + "_retire_peer_cid", CONN + "change_connection_id",
         CONN + "_handle_retire_connection_id_frame", CONN + "_replenish_connection_ids",
         CONN + "_on_new_connection_id_delivery", CONN + "_on_retire_connection_id_delivery",
+        CONN + "_write_retire_connection_id_frame", CONN + "_write_application@retire_cids", PB_ + "start_frame",
     ],
     bounded=[],
     scope="decided for all states satisfying PC/HC and all frame contents / call arguments (hence, by induction, all histories of NEW_CONNECTION_ID, RETIRE_CONNECTION_ID, change_connection_id() and delivery callbacks): "
-    "PEER SIDE - after a NEW_CONNECTION_ID frame is processed normally the recorded retire-prior-to is max(previous, frame's), the current destination ID and every spare are at or above it, pairwise distinct, recorded as seen, and 1 + spares <= _local_active_connection_id_limit; CONNECTION_ID_LIMIT_ERROR exactly when that bound or the pending-retirement bound min(4*limit, 100) would be exceeded, PROTOCOL_VIOLATION exactly when retire_prior_to > sequence_number, FRAME_ENCODING_ERROR exactly when the ID length is outside 1..20 (the last two leave the state untouched); the retirement queue grows by exactly the old current ID (iff it is below retire-prior-to) followed by the old spares below it, each once, older entries kept; every other old spare is still held (same object, same number); the only ID that can become held is the frame's own and only if its sequence number was never seen, sequence numbers once seen stay seen (so an ID abandoned earlier - by retire-prior-to or by change_connection_id() - is never held, hence never used as destination, again); change_connection_id() abandons exactly the current ID, queues its retirement once and switches to the oldest spare, and does nothing without a spare; a lost RETIRE_CONNECTION_ID is queued again, an acknowledged one is not. "
+    "PEER SIDE - after a NEW_CONNECTION_ID frame is processed normally the recorded retire-prior-to is max(previous, frame's), the current destination ID and every spare are at or above it, pairwise distinct, recorded as seen, and 1 + spares <= _local_active_connection_id_limit; CONNECTION_ID_LIMIT_ERROR exactly when that bound or the pending-retirement bound min(4*limit, 100) would be exceeded, PROTOCOL_VIOLATION exactly when retire_prior_to > sequence_number, FRAME_ENCODING_ERROR exactly when the ID length is outside 1..20 (the last two leave the state untouched); the retirement queue grows by exactly the old current ID (iff it is below retire-prior-to) followed by the old spares below it, each once, older entries kept; every other old spare is still held (same object, same number); the only ID that can become held is the frame's own and only if its sequence number was never seen, sequence numbers once seen stay seen (so an ID abandoned earlier - by retire-prior-to or by change_connection_id() - is never held, hence never used as destination, again); change_connection_id() abandons exactly the current ID, queues its retirement once and switches to the oldest spare, and does nothing without a spare; a lost RETIRE_CONNECTION_ID is queued again, an acknowledged one is not; EMISSION - block contract on the RETIRE_CONNECTION_ID loop of _write_application (located by the call it makes): a queued sequence number leaves the queue only together with a written frame whose delivery handler is registered on the packet (start_frame: exactly one handler more per frame that names one, none when the frame is refused), the loop ends with an empty queue, and when the packet is full (QuicPacketBuilderStop) the numbers not yet written are all still queued in order. "
     "HOST SIDE - RETIRE_CONNECTION_ID: PROTOCOL_VIOLATION exactly when the sequence number was never issued or names the ID the packet was addressed to (state untouched); otherwise exactly the named ID is removed from _host_cids, every other issued ID stays (same object, bytes, number), and the list is topped up to exactly min(8, peer's active_connection_id_limit) with fresh consecutive sequence numbers marked not-yet-sent; len(_host_cids) <= max(1, min(8, peer limit)) and sequence numbers distinct and below _host_cid_seq are preserved; a lost NEW_CONNECTION_ID makes its ID pending (was_sent False) again",
     lemma="C18 sentence 1: 'addresses every later packet to a connection ID at or above it' = pc_floor (ensures of the NEW_CONNECTION_ID handler and of change_connection_id; the packet builder is given _peer_cid.cid), together with E_seen/E_new (never re-held); 'announces the retirement of each ID it abandons' = witness clauses E_ann0-2 of the handler + ensures of change_connection_id/_retire_peer_cid (queued), '(again after loss)' = _on_retire_connection_id_delivery; 'never keeps more peer-issued IDs than it advertised' = pc_limit with the raises-iff clauses. Sentence 2: 'never issues more simultaneously active IDs than the peer allows' = hc_bound + ensures.6 of _replenish_connection_ids (the peer's limit is >= 2 by _parse_transport_parameters, so max(1, min(8, limit)) <= limit); 'keeps accepting packets addressed to any ID it issued until the peer retires it' = the kept-elements clauses of the RETIRE_CONNECTION_ID handler (the only function that removes from _host_cids; receive_datagram matches the destination ID against _host_cids); 'replaces retired IDs' = len(_host_cids) == max(h0 - removed, min(8, limit)) with fresh unsent IDs. Induction: every function that writes the PC/HC fields is in the list and proves PC/HC at exit, and states explicitly what it leaves unchanged",
-    not_decided="KNOWN FINDING: the NEW_CONNECTION_ID handler calls _consume_peer_cid() with no spare ID (IndexError escapes) for a frame whose retire-prior-to exceeds the current ID and all spares while its own sequence number was already seen - the defect clause (cut) is refuted on the unchanged tree and everything else is verified under it. Not under contract: _write_application's emission loops (NEW_CONNECTION_ID for !was_sent, RETIRE_CONNECTION_ID for each queued number - a retirement dropped there without being written is NOT caught), _write_new_connection_id_frame / _write_retire_connection_id_frame (QuicPacketBuilder.start_frame has no contract), receive_datagram (destination-ID match, peer-initiated switch calling change_connection_id, first-packet assignment), __init__, _parse_transport_parameters (peer limit >= 2, written once), asyncio/server.py routing, ConnectionIdIssued/Retired events, and the wire-level history of datagrams across loss",
+    not_decided="KNOWN FINDING: the NEW_CONNECTION_ID handler calls _consume_peer_cid() with no spare ID (IndexError escapes) for a frame whose retire-prior-to exceeds the current ID and all spares while its own sequence number was already seen - the defect clause (cut) is refuted on the unchanged tree and everything else is verified under it. Not under contract: _write_application's NEW_CONNECTION_ID emission loop and _write_new_connection_id_frame; the entry conditions of the RETIRE_CONNECTION_ID block (a packet is open) are assumed; that the registered handler/argument pair is (_on_retire_connection_id_delivery, (sequence_number,)) is not stated (only that one pair is registered per frame); receive_datagram (destination-ID match, peer-initiated switch calling change_connection_id, first-packet assignment), __init__, _parse_transport_parameters (peer limit >= 2, written once), asyncio/server.py routing, ConnectionIdIssued/Retired events, and the wire-level history of datagrams across loss",
     trusted_base=BASE + [C18_COMP, C18_FRESH, "contracts/buffer_model.py (Python-level restatement of the cwp-proved Buffer contract)", "os.urandom stub (n bytes; ValueError for n < 0)"],
     assumptions=[C18_INV, C18_SEQ_INT, C18_QLOG, C18_CIDLEN, A2],
 )
 
-PB = "quic/packet_builder.py::QuicPacketBuilder."
+PB = PB_
 CRYPTO_STUB = "CryptoPair.encrypt_packet: trusted Python-level restatement of the cwp-proved C contracts of _crypto.c AEAD_encrypt + HeaderProtection_apply (after fix fe0e03b): result = header + payload + 16-byte tag; CryptoError exactly when payload > 1484, header + payload + 16 > 1500, header shorter than its packet-number field + 1, or payload shorter than 4 - pn_length; assumes send keys are installed (no AssertionError) and OpenSSL does not fail"
 BUF_STUB = "Buffer (contracts/buffer_model.py): trusted Python-level restatement of the cwp-proved contracts of _buffer.c"
 FRAMES = "modifies lists are checked syntactically (check_frame=True) for every C13 function: a heap field written on some path, other than at an object allocated on that path, must be named in `modifies`"
